@@ -41,6 +41,10 @@ type Spec struct {
 	P      float64  `json:"p,omitempty"`
 	D      int      `json:"d,omitempty"`
 	Funcs  []string `json:"funcs,omitempty"`
+	// Q: site policy only — probability of a switch at a yield OUTSIDE the
+	// chosen functions (a fault planted inside them often needs one more,
+	// ordinary, overlap elsewhere to become visible).
+	Q float64 `json:"q,omitempty"`
 }
 
 // Foreign identifies a goroutine that the library started in an earlier
@@ -287,7 +291,11 @@ func (s *S) decide(site uint32) int {
 			return s.pickOther(s.cur)
 		}
 	case "site":
-		if s.siteIn != nil && s.siteIn(site) && s.rng.P(s.spec.P) {
+		if s.siteIn != nil && s.siteIn(site) {
+			if s.rng.P(s.spec.P) {
+				return s.pickOther(s.cur)
+			}
+		} else if s.spec.Q > 0 && s.rng.P(s.spec.Q) {
 			return s.pickOther(s.cur)
 		}
 	case "pct":
